@@ -78,8 +78,16 @@ impl Want {
 /// Build a group from (path, source) files and scripts and call the emit APIs.
 /// `fuel` (if non-zero) limits the parser steps per file.
 pub fn compile(files: &[(String, String)], scripts: &[(String, String)], want: Want, fuel: u64) -> TmplRun {
+    compile_with_extra(files, scripts, want, fuel, None)
+}
+
+/// `extra`: the extra runtime script of the group (`set_extra_runtime_script`)
+pub fn compile_with_extra(files: &[(String, String)], scripts: &[(String, String)], want: Want, fuel: u64, extra: Option<&str>) -> TmplRun {
     let mut run = TmplRun::default();
     let mut group = TmplGroup::new();
+    if let Some(e) = extra {
+        group.set_extra_runtime_script(e);
+    }
     for (path, src) in files {
         verif_hooks::set_fuel(if fuel == 0 { u64::MAX } else { fuel });
         let r = guarded(|| group.add_tmpl(path, src));
